@@ -98,14 +98,16 @@ class NetQASMProtocol(Protocol):
         else:
             self.buf = data
 
-        try:
-            msg_id, msg = self._parse_message()
-        except IncompleteMessageError:
-            return
+        # Handle every complete message in the buffer (several may arrive in one read)
+        while True:
+            try:
+                msg_id, msg = self._parse_message()
+            except IncompleteMessageError:
+                return
 
-        d = self.messageHandler.handle_netqasm_message(msg_id=msg_id, msg=msg)
-        d.addCallback(self.log_handled_message)
-        d.addErrback(self.log_error)
+            d = self.messageHandler.handle_netqasm_message(msg_id=msg_id, msg=msg)
+            d.addCallback(self.log_handled_message)
+            d.addErrback(self.log_error)
 
     def log_handled_message(self, result):
         self._logger.info(f"Finished handling message with result = {result}")
@@ -127,7 +129,7 @@ class NetQASMProtocol(Protocol):
             raise IncompleteMessageError
         if len(self.buf) < msg_hdr.length:
             raise IncompleteMessageError
-        msg = deserialize_host_msg(self.buf[MessageHeader.len():])
+        msg = deserialize_host_msg(self.buf[MessageHeader.len():msg_hdr.length])
         self.buf = self.buf[msg_hdr.length:]
 
         return msg_hdr.id, msg
